@@ -93,7 +93,7 @@ func c19StreamConn(w *vlib.World, id *vlib.Identity, kind string) *vlib.Conn {
 
 func TestC19(t *testing.T) {
 	ev := vlib.NewEvidence("C19", "exploration",
-		"(e2e) the built agent binary fronting a fake geth node, configured only by --enode / --enode.host / neither, registers with the built pool binary and a client is handed its URI; (bin) the built pool binary on 127.0.0.1 and [::1]: hosts register over real WebSocket connections with each non-exotic override and the URI a client is handed for them is compared with the supplied address or the TCP source address with port 30303; signed vipnode_connect (full node) and legacy vipnode_host over Remote connections whose codec reports a generated source address (IPv4, [IPv6]:port, loopback v6, empty, host without port), crossed with node-URI overrides (absent, own id with IPv4/IPv6/DNS hosts with and without ports, unspecified [::], missing host, empty user, no user, user:password, other id, path/query, exotic strings); oracle: an accepted registration's stored Node.URI and the URI handed to a client by vipnode_peer parse with ethnode.ParseNodeURI and net.SplitHostPort to the authenticated id, the supplied host (or the source host) and the supplied port (or 30303); undeterminable addresses are refused and nothing is stored; non-trivial = registration accepted and parsed back; distinct = (endpoint, source class, override class, driver)")
+		"(e2e) the built agent binary fronting a fake geth node, configured only by --enode / --enode.host / neither, registers with the built pool binary and a client is handed its URI; (bin) the built pool binary on 127.0.0.1 and [::1]: hosts register over real WebSocket connections with each non-exotic override and the URI a client is handed for them is compared with the supplied address or the TCP source address with port 30303; signed vipnode_connect (full node) and legacy vipnode_host over Remote connections whose codec reports a generated source address (IPv4, [IPv6]:port, loopback v6, empty, host without port), crossed with node-URI overrides (absent, own id with IPv4/IPv6/DNS hosts with and without ports, unspecified [::], missing host, empty user, no user, user:password, other id, path/query, exotic strings); oracle: an accepted registration's stored Node.URI and the URI handed to a client by vipnode_peer parse with ethnode.ParseNodeURI and net.SplitHostPort to the authenticated id, the supplied host (or the source host) and the supplied port (or 30303); undeterminable addresses are refused and nothing is stored; non-trivial = registration accepted and parsed back; distinct = (endpoint, source class, override class, driver); (faults) re-registrations with store calls failing, re-registrations racing the host's keep-alives")
 	ev.Assume("exotic overrides (0.0.0.0, non-enode schemes, unparsable strings, zones, out-of-range ports) are only required not to crash and to keep the id binding")
 	for _, driver := range vlib.Drivers() {
 		w, err := vlib.NewWorld(vlib.WorldOptions{Driver: driver})
